@@ -23,7 +23,7 @@ from lib import lossworld as LW
 from vloop import Stall, vrun
 
 ID = "C08"
-GENS = ["c04_limits", "c06_doip", "c07_hsfz"]
+GENS = ["c04_limits", "c06_doip", "c07_hsfz", "c08_loss"]
 PROOF = "Gallia.Proofs.C08"
 DRIVER = "c08"
 ORACLE = False
